@@ -100,6 +100,13 @@ func MakeRemoteSource(sourceType string, u *url.URL, subPath string) (RemoteSour
 		return RemoteSource{}, fmt.Errorf("must not use username or password in URL portion")
 	}
 
+	// The per-type rules read the query with u.Query(), which silently drops
+	// pairs it cannot parse, while the address keeps RawQuery as given. Refuse
+	// a query that does not parse, as ParseRemoteSource does.
+	if _, err := url.ParseQuery(u.RawQuery); err != nil {
+		return RemoteSource{}, fmt.Errorf("invalid URL query string syntax: %w", err)
+	}
+
 	copyU := *u // shallow copy so we can safely modify
 
 	return makeRemoteSource(sourceType, &copyU, subPath)
